@@ -588,6 +588,8 @@ def method_model(it, obj, name):
         if name in ("items", "keys", "values", "update", "copy", "clear"):
             if name == "update":
                 return ModelFn("cdict.update", lambda it2, a, k, _o=obj: _cdict_update(it2, _o, a, k))
+            if name == "clear":
+                return ModelFn("cdict.clear", lambda it2, a, k, _o=obj: (it2.guard_write(_o), _o.clear())[1])
             return None
         return None
     if isinstance(obj, (list, collections.deque)):
@@ -607,6 +609,8 @@ def method_model(it, obj, name):
 
 def _cdict_method(it, d, name, a, k):
     key = a[0]
+    if name in ("pop", "setdefault"):
+        it.guard_write(d)
     if isinstance(key, SV) or (isinstance(key, tuple) and not ops.all_concrete([key])):
         if name == "get":
             default = a[1] if len(a) > 1 else None
@@ -619,6 +623,7 @@ def _cdict_method(it, d, name, a, k):
 
 
 def _cdict_update(it, d, a, k):
+    it.guard_write(d)
     for src in a:
         if isinstance(src, dict):
             d.update(src)
@@ -632,6 +637,8 @@ def _cdict_update(it, d, a, k):
 
 
 def _clist_method(it, lst, name, a, k):
+    if name != "copy":
+        it.guard_write(lst)
     try:
         return getattr(lst, name)(*a, **k)
     except (IndexError, TypeError) as exc:
@@ -647,9 +654,21 @@ def _str_method(it, obj, name, f, a, k):
     return f(it, lift(obj)[1], a, k)
 
 
+py_rstrip_chars = z3.Function("py_rstrip_chars", STR, STR, STR)
+
+
 def s_rstrip(it, t, a, k):
     if a:
-        raise Unsupported("rstrip(chars)")
+        # rstrip(chars): uninterpreted (only: the result is a prefix, not longer than the argument)
+        from .laws import s_prefixof
+
+        kind, chars = lift(ops.force(a[0]))
+        lb = lawbook(it.ctx)
+        r = py_rstrip_chars(t, chars)
+        if lb._once("rstrip_chars", t, chars):
+            it.ctx.add_fact(s_prefixof(r, t))
+            it.ctx.add_fact(lb.length(r) <= lb.length(t))
+        return ops.mk("str", r)
     return ops.mk("str", lawbook(it.ctx).rstrip(t))
 
 
@@ -742,7 +761,25 @@ def s_endswith(it, t, a, k):
     return ops.mk("bool", s_suffixof(p, t))
 
 
+def s_partition(it, t, a, k):
+    """s.partition(sep): (head, sep, tail) with s = head ++ sep ++ tail at the first occurrence of sep,
+    or (s, '', '') when sep does not occur.  (First-occurrence is only stated as: find(s, sep) = len(head).)"""
+    from .laws import s_find as F
+
+    kind, sep = lift(ops.force(a[0]))
+    lb = lawbook(it.ctx)
+    has = lb.contains(t, sep)
+    if not it.branch(has):
+        return (ops.mk("str", t), "", "")
+    head = it.ctx.fresh("str", "part_head")
+    tail = it.ctx.fresh("str", "part_tail")
+    it.ctx.add_fact(t == lb.concat([head.term, sep, tail.term]))
+    it.ctx.add_fact(F(t, sep) == lb.length(head.term))
+    return (head, ops.mk("str", sep), tail)
+
+
 STR_METHODS = {
+    "partition": s_partition,
     "rstrip": s_rstrip,
     "strip": s_strip,
     "split": s_split,
@@ -810,7 +847,25 @@ def q_split(it, sv, a, k):
     return [SeqVal("byte", head, "bytes"), SeqVal("byte", tail, "bytes")]
 
 
-SEQ_METHODS = {"split": q_split, "pop": q_pop, "append": q_append, "decode": q_decode, "extend": q_extend}
+def q_ljust(it, sv, a, k):
+    """bytes.ljust(width, b'\xff'): the bytes followed by max(width - len, 0) fill bytes"""
+    if sv.elem_kind != "byte" or len(a) != 2 or bytes(a[1]) != b"\xff":
+        raise Unsupported("ljust on this sequence / fill byte")
+    kind, w = lift(a[0])
+    ln = z3.Length(sv.term)
+    n = z3.If(w - ln > 0, w - ln, z3.IntVal(0))
+    lb = lawbook(it.ctx)
+    pad = lb.ff(n)
+    lb.ff_step(n)
+    return SeqVal("byte", z3.Concat(sv.term, pad), "bytes")
+
+
+def q_clear(it, sv, a, k):
+    sv.term = z3.Empty(sv.term.sort())
+    return None
+
+
+SEQ_METHODS = {"clear": q_clear, "ljust": q_ljust, "split": q_split, "pop": q_pop, "append": q_append, "decode": q_decode, "extend": q_extend}
 
 
 def r_append(it, sr, a, k):
